@@ -92,10 +92,15 @@ def parse_kv(s: str) -> dict:
 SYN_KINDS = ("before", "after", "on_failure")
 
 
+import threading as _threading
+_tl_guard = _threading.local()
+
+
 class Env:
     def __init__(self, spec: dict, *, events: bool = False, trust_negative: bool = False,
-                 max_wait_retries: int | None = None, tag: str = "eng"):
+                 max_wait_retries: int | None = None, tag: str = "eng", threaded: bool = False):
         self.spec = spec
+        self.threaded = threaded             # every delivery on a fresh worker thread (new thread-local connections)
         self.events = events
         self.trust_negative = trust_negative
         self.dir = lib.scratch_dir(tag)
@@ -481,11 +486,12 @@ class Env:
         crash_at = k: the k-th write commit of this delivery (0 = the poll's claim commit) is rolled back
         and the process dies there.  in_thread: the delivery runs on a fresh worker thread (joined before returning), so
         every thread-local connection of the store / queue / event store is new - what a QueueProcessor pool thread sees."""
-        if in_thread:
+        if in_thread or (self.threaded and not getattr(_tl_guard, "inside", False)):
             import threading
             box: dict = {}
 
             def run():
+                _tl_guard.inside = True
                 try:
                     box["r"] = self.deliver(row_id, ack=ack, crash_at=crash_at, reset_attempts=reset_attempts, on_commit=on_commit)
                 except BaseException as e:  # noqa
